@@ -420,7 +420,7 @@ fn gen_wild_comp_state(ch: &mut Ch, c: &Comp) -> Vec<f64> {
             2 => {
                 // non-unit
                 let q = gen_unit_quat(ch);
-                let s = ch.pick(&[2.0, 0.5, 1e-3, 1e3, 1e-8]);
+                let s = ch.pick(&[2.0, 0.5, 1e-3, 1e3, 1e-8, 2.0, 0.5, 1e160, 1e200, 1e-160, 1e-200]);
                 q.iter().map(|x| x * s).collect()
             }
             3 => vec![0.0, 0.0, 0.0, 0.0],
@@ -511,7 +511,7 @@ impl Prop for C11 {
     type Case = BoundsCase;
     const ID: &'static str = "C11";
     const PART: &'static str = "bounds-ops";
-    const RULE: &'static str = "proptest choice sequences -> constructible bound settings of a random kind (boxes incl. half-bounded, one-ulp wide and 1e100 wide; SO2 intervals inside, touching and partly outside [-pi,pi]; SO3 cones of radius 0, 1e-10, (1e-8, pi], > pi with arbitrary (also negated) centres; compounds) x an arbitrary state per component (inside, on the boundary +-ulp, far outside, non-canonical angle, non-unit / zero quaternion) x a sampler seed (3 draws). Sampling is skipped for cones with 1e-9 <= radius < 0.05 (cost of rejection sampling). Non-trivial = a space with non-default bounds and an input that is out of bounds or non-canonical.";
+    const RULE: &'static str = "proptest choice sequences -> constructible bound settings of a random kind (boxes incl. half-bounded, one-ulp wide and 1e100 wide; SO2 intervals inside, touching and partly outside [-pi,pi]; SO3 cones of radius 0, 1e-10, (1e-8, pi], > pi with arbitrary (also negated) centres; compounds) x an arbitrary state per component (inside, on the boundary +-ulp, far outside, non-canonical angle, non-unit (scaled by 1e-200 .. 1e200) / zero quaternion) x a sampler seed (3 draws). Sampling is skipped for cones with 1e-9 <= radius < 0.05 (cost of rejection sampling). Non-trivial = a space with non-default bounds and an input that is out of bounds or non-canonical.";
     fn random_cases(tier: Tier) -> usize {
         tier.pick(2_400_000, 8_000_000)
     }
